@@ -139,3 +139,13 @@ def _(case, vio):
     kind, op, parts = _parts(vio)
     ax = case["spec"].get("axis")
     return ax is not None and ax < 0 and bool(parts & {"rec", "union"})
+
+
+def masked_over_record(d):
+    return any_node(d, lambda n: n["class"] in ("UnmaskedArray", "ByteMaskedArray", "BitMaskedArray") and n["content"]["class"] == "RecordArray")
+
+
+@known("masked_lazy_carry")
+def _(case, vio):
+    return vio.get("clause") == "C11-closure" and "MaskedArray contains IndexedArray64" in vio.get("message", "").replace("Unmasked", "UnMasked") and \
+        any(masked_over_record(d) for d in descs_of(case))
